@@ -2228,7 +2228,11 @@ parse_citation:
 
 			print_const("</text:p>\n</table:table-cell>\n");
 
-			if (t->next) {
+			// Columns beyond kMaxTableColumns have no alignment of their own, so stop
+			// counting there (a wider table would overflow the short counter)
+			if ((scratch->table_cell_count >= kMaxTableColumns) || (t->next && (t->next->len >= kMaxTableColumns))) {
+				scratch->table_cell_count = kMaxTableColumns;
+			} else if (t->next) {
 				scratch->table_cell_count += t->next->len;
 			} else {
 				scratch->table_cell_count++;
